@@ -16,7 +16,7 @@ from ..harness import Sub, Violation
 
 PROPERTY = "C19"
 HANG_SECONDS = 900.0
-LINE_BUDGET = 3000000000
+LINE_BUDGET = 20000000000
 RULE = ("The working tree is copied to a scratch directory and built with the documented `make ACC=pycc LANGUAGE=fortran "
         "pycc` (thorough: also LANGUAGE=c); a failing build is a violation.  Hypothesis generates batches of calls to every "
         "exported kernel of the five accelerated modules (degrees 1-5, clamped/periodic/uniform knots, evaluation points on "
